@@ -61,3 +61,19 @@ Definition plain_mean (bv : list (list Q)) (parents : list nat) (q : nat) : Q :=
 Definition uniform (m : nat) : list Q := repeat (1 / nq m) m.
 Definition uc_ok (impl : list Q) (parts : list (Q * Q)) : bool :=
   all2 (fun v pr => let d := v - fst pr in Qle_bool (- tol30) d && Qclose (d * d) (snd pr)) impl parts.
+
+(** expected maximum breeding value (DenseExpectedMaximumBreedingValueMatrix.from_gmod and the EMBV selection problems'
+    _calc_embv).  The progeny breeding values of every replicate are an ARGUMENT of the model (recorded by the harness at the
+    library's own call of gebv on each simulated progeny matrix; that the progeny are doubled haploids / selfs of the right
+    parent is the independent predicate's job — meiosis is properties C01/C02):
+      reps[r][g][q] = breeding value of progeny g of replicate r for trait q;
+      entry q = mean over exactly the replicates drawn of the maximum over the progeny of that replicate. *)
+Definition colmax (bvs : list (list Q)) (q : nat) : Q := maxl (map (fun r => nth q r 0) bvs).
+Definition embv_entry (reps : list (list (list Q))) (q : nat) : Q := qsum (map (fun bvs => colmax bvs q) reps) / nq (length reps).
+Definition embv_def (allreps : list (list (list (list Q)))) (t : nat) : list (list Q) :=
+  map (fun reps => map (embv_entry reps) (seq 0 t)) allreps.
+(** what the factory must have drawn: entry i = replicate count nrep_i, each replicate with nprogeny_i progeny *)
+Definition embv_shape_ok (allreps : list (list (list (list Q)))) (nrep nprogeny : list nat) : bool :=
+  list_eqb Nat.eqb (map (@length _) allreps) nrep &&
+  forallb (fun rn => forallb (fun bvs => Nat.eqb (length bvs) (snd rn)) (fst rn)) (combine allreps nprogeny) &&
+  Nat.eqb (length nprogeny) (length allreps).
